@@ -55,19 +55,21 @@ FromSet(S, Build(_)) == LET ds == SetToSeq(S) IN << >> \o [j \in 1..Len(ds) |-> 
 \* F1: one switch, every hole pattern of 2..8 cases, under several labels and configurations
 CfgLabels == IF Thorough
              THEN {cl \in (1..3) \X (1..9) : cl[2] <= Len(Labels[cl[1]])}
-             ELSE {<<1, 1>>, <<1, 2>>, <<1, 3>>, <<2, 1>>, <<2, 2>>, <<2, 3>>, <<3, 1>>, <<3, 2>>}
+             ELSE {<<1, 1>>, <<1, 2>>, <<2, 1>>, <<2, 2>>, <<3, 2>>}
 F1 == FromSet({d \in CfgLabels \X (2..8) \X (0..127) : d[3] < Pow2[d[2]]},
               LAMBDA d : Case("single", d[1][1], Call(<< Sw(1, d[2], d[3], IntTerm) >>, NoL, Labels[d[1][1]][d[1][2]])))
 \* F2: two switches of equal length, every pair of hole patterns
-N2 == IF Thorough THEN 8 ELSE 5
-CL2 == {<<1, 1>>, <<2, 2>>}
-F2 == FromSet({d \in CL2 \X (2..N2) \X (0..127) \X (0..127) : d[3] < Pow2[d[2]] /\ d[4] < Pow2[d[2]]},
+CLN2 == IF Thorough THEN {<<1, 1>>, <<2, 2>>} \X (2..8) ELSE ({<<2, 2>>} \X (2..5)) \cup ({<<1, 1>>} \X (2..4))
+F2 == FromSet(UNION {{<<cn[1], cn[2], e1, e2>> : e1 \in 0..(Pow2[cn[2]] - 1), e2 \in 0..(Pow2[cn[2]] - 1)} : cn \in CLN2},
               LAMBDA d : Case("double", d[1][1],
                               Call(<< Sw(1, d[2], d[3], IntTerm), Sw(2, d[2], d[4], IntTerm) >>, NoL, Labels[d[1][1]][d[1][2]])))
 \* F3: three switches
-N3 == IF Thorough THEN 5 ELSE 4
 CL3 == IF Thorough THEN {<<2, 1>>, <<1, 2>>} ELSE {<<2, 1>>}
-F3 == FromSet({d \in CL3 \X (2..N3) \X (0..15) \X (0..15) \X (0..15) : d[3] < Pow2[d[2]] /\ d[4] < Pow2[d[2]] /\ d[5] < Pow2[d[2]]},
+D3 == IF Thorough
+      THEN {d \in CL3 \X (2..5) \X (0..15) \X (0..15) \X (0..15) : d[3] < Pow2[d[2]] /\ d[4] < Pow2[d[2]] /\ d[5] < Pow2[d[2]]}
+      ELSE {d \in CL3 \X (2..3) \X (0..3) \X (0..3) \X (0..3) : d[3] < Pow2[d[2]] /\ d[4] < Pow2[d[2]] /\ d[5] < Pow2[d[2]]}
+           \cup (CL3 \X {4} \X (0..7) \X (0..7) \X {0, 5})
+F3 == FromSet(D3,
               LAMBDA d : Case("triple", d[1][1],
                               Call(<< Sw(1, d[2], d[3], IntTerm), Sw(2, d[2], d[4], IntTerm), Sw(3, d[2], d[5], RegTerm) >>,
                                    NoL, Labels[d[1][1]][d[1][2]])))
@@ -75,13 +77,14 @@ F3 == FromSet({d \in CL3 \X (2..N3) \X (0..15) \X (0..15) \X (0..15) : d[3] < Po
 \* and next to a sibling switch that is explicit everywhere
 N4 == IF Thorough THEN 5 ELSE 4
 F4 == FromSet({d \in (1..2) \X (2..N4) \X (0..15) \X (0..4) \X (0..15) \X (0..1) :
-                    d[3] < Pow2[d[2]] /\ d[5] < Pow2[d[2]] /\ d[4] < d[2] /\ Explicit(d[3], d[4])},
+                    /\ d[3] < Pow2[d[2]] /\ d[5] < Pow2[d[2]] /\ d[4] < d[2] /\ Explicit(d[3], d[4])
+                    /\ (Thorough \/ d[1] = 1 + ((d[3] + d[5]) % 2))},
               LAMBDA d : LET nested == SwWith(1, d[2], d[3], d[4], Sw(2, d[2], d[5], IntTerm))
                          IN Case(IF d[6] = 0 THEN "nested" ELSE "nested+sibling", d[1],
                                  Call(IF d[6] = 0 THEN << nested >> ELSE << nested, Sw(3, d[2], Pow2[d[2]] - 1, IntTerm) >>,
                                       NoL, Labels[d[1]][IF d[1] = 2 THEN 2 ELSE 1])))
 \* F5: assignment of a switch: all-simple cases (one instruction replicated) and with one computed case
-F5a == FromSet({d \in (1..2) \X (2..8) \X (0..127) : d[3] < Pow2[d[2]]},
+F5a == FromSet({d \in (IF Thorough THEN 1..2 ELSE {2}) \X (2..8) \X (0..127) : d[3] < Pow2[d[2]]},
                LAMBDA d : Case("assign", d[1], Assign(Sw(1, d[2], d[3], RegTerm), NoL, Labels[d[1]][IF d[1] = 2 THEN 2 ELSE 1])))
 F5b == FromSet({d \in (1..2) \X (2..4) \X (0..7) \X (0..3) : d[3] < Pow2[d[2]] /\ d[4] < d[2] /\ Explicit(d[3], d[4])},
                LAMBDA d : Case("assign-computed", d[1],
@@ -90,33 +93,37 @@ F5b == FromSet({d \in (1..2) \X (2..4) \X (0..7) \X (0..3) : d[3] < Pow2[d[2]] /
 \* F6: the statement inside a labelled block, with and without a label of its own
 OuterOwn == {<<1, 2, 1>>, <<1, 2, 4>>, <<1, 2, 5>>, <<1, 6, 1>>, <<1, 6, 4>>, <<1, 7, 1>>, <<1, 7, 2>>, <<1, 8, 1>>, <<1, 8, 3>>,
              <<2, 2, 1>>, <<2, 2, 5>>, <<2, 4, 1>>, <<2, 4, 5>>, <<2, 7, 1>>, <<2, 7, 6>>, <<3, 2, 1>>, <<3, 2, 3>>}
-F6 == FromSet({d \in OuterOwn \X (3..4) \X (0..7) : d[3] < Pow2[d[2]]},
+F6 == FromSet({d \in OuterOwn \X (IF Thorough THEN 3..4 ELSE {4}) \X (0..7) : d[3] < Pow2[d[2]]},
               LAMBDA d : Case("in-block", d[1][1], Call(<< Sw(1, d[2], d[3], IntTerm) >>, Labels[d[1][1]][d[1][2]], Labels[d[1][1]][d[1][3]])))
 \* F7: register cases
-F7 == FromSet({d \in (2..8) \X (0..127) : d[2] < Pow2[d[1]]},
+F7 == FromSet({d \in (2..(IF Thorough THEN 8 ELSE 6)) \X (0..127) : d[2] < Pow2[d[1]]},
               LAMBDA d : Case("registers", 1, Call(<< Sw(1, d[1], d[2], RegTerm), [k |-> "int", v |-> 7] >>, NoL, NoL)))
 \* F8: under every label: the label is the specification's own print of every mask (th06: every
 \* subset of ENHL; th08: quick = every mask over bits 0..3 and F, thorough = all 256)
-MasksFor(c) == IF c = 1 THEN {BitsOf(x) : x \in 0..15}
-               ELSE IF Thorough THEN {BitsOf(x) : x \in 0..255}
-               ELSE {BitsOf(x) \cup {4, 6, 7} : x \in 0..15} \cup {BitsOf(x) \cup {4, 5, 6, 7} : x \in 0..15}
-F8 == FromSet({d \in (1..(IF Thorough THEN 3 ELSE 2)) \X (0..255) \X (0..7) : BitsOf(d[2]) \in MasksFor(d[1])},
+MaskBytes(c) == IF c = 1 THEN 0..15
+                ELSE IF Thorough THEN 0..255
+                ELSE {x + 208 : x \in 0..15} \cup {x + 240 : x \in 0..15}     \* bits 4,6,7 (+ F) on
+Pats8(c) == IF Thorough \/ c = 1 THEN 0..7 ELSE {0, 2, 5, 7}
+F8 == FromSet(UNION {{<<c, x, e>> : x \in MaskBytes(c), e \in Pats8(c)} : c \in 1..(IF Thorough THEN 3 ELSE 2)},
               LAMBDA d : Case("every-label", d[1], Call(<< Sw(1, 4, d[3], IntTerm) >>, NoL, L(TPrintLabel(BitsOf(d[2]), Tabs[d[1]])))))
 
 Cases == F1 \o F2 \o F3 \o F4 \o F5a \o F5b \o F6 \o F7 \o F8
-N == Len(Cases)
 
-\* ---- state space: blocks of 64 cases as roots, the cases as their successors (so that the
-\* workers share the evaluation of the invariants)
+\* ---- state space: one root holding the whole family (a definition like Cases is re-evaluated every
+\* time a state-level formula mentions it, so it is mentioned once), blocks of 64 cases as its
+\* successors, the single cases as theirs (so that the workers share the evaluation of the invariants)
 Blk == 64
-VARIABLES b, i
-vars == <<b, i>>
-Init == b \in 0..((N - 1) \div Blk) /\ i = 0
-Next == i = 0 /\ i' \in {x \in (b * Blk + 1)..((b + 1) * Blk) : x <= N} /\ UNCHANGED b
+VARIABLES lvl, all, c
+vars == <<lvl, all, c>>
+NoCase == [fam |-> "none"]
+Init == lvl = 0 /\ all = TLCGet(41) /\ c = NoCase       \* register 41 = Cases, parked by the ASSUME below
+Next == \/ /\ lvl = 0 /\ lvl' = 1 /\ c' = NoCase
+           /\ \E b \in 0..((Len(all) - 1) \div Blk) : all' = SubSeq(all, b * Blk + 1, IF (b + 1) * Blk < Len(all) THEN (b + 1) * Blk ELSE Len(all))
+        \/ /\ lvl = 1 /\ lvl' = 2 /\ all' = << >> /\ \E j \in 1..Len(all) : c' = all[j]
 Spec == Init /\ [][Next]_vars
 
-St == Cases[i].st
-Tab == Tabs[Cases[i].cfgi]
+St == c.st
+Tab == Tabs[c.cfgi]
 
 \* ---- in-model facts
 LabelsValid == (St.own.has => TLabelToMask(St.own.chars, Tab).ok) /\ (St.outer.has => TLabelToMask(St.outer.chars, Tab).ok)
@@ -128,13 +135,17 @@ SelectFacts == LET sw == AllSwitches(St.args) IN
         /\ (d > 0 /\ d \notin ExplicitAt(sw[j].cases)) => Select(sw[j].cases, d) = Select(sw[j].cases, d - 1)
 \* the documented expansion satisfies the property
 ExpansionOk == ExactlyOne(St, Tab, Expand(St, Tab))
-\* ... and an expansion that only looks at the outermost switches can only go wrong when a nested
-\* switch is finer than them
-TopOnlyOk == ~ExactlyOne(St, Tab, ExpandWith(St, Tab, TopExplicit(St.args))) => NestedFiner(St.args)
-Inv == i > 0 => (LabelsValid /\ Sized /\ SelectFacts /\ ExpansionOk /\ TopOnlyOk)
+Inv == lvl = 2 => (LabelsValid /\ Sized /\ SelectFacts /\ ExpansionOk)
 
-ASSUME ndJsonSerialize(IOEnv.OUT, [k \in 1..N |->
-          [id |-> k, fam |-> Cases[k].fam, cfg |-> Cases[k].cfg, cfgi |-> Cases[k].cfgi, defs |-> Cases[k].defs, st |-> Cases[k].st,
-           finer |-> NestedFiner(Cases[k].st.args)]])
-ASSUME PrintT(<<"GEN", "Gen_DiffSwitch", N>>)
+\* exported with every case: whether a nested switch is finer than the outermost ones and, if so,
+\* whether an expansion that only looks at the outermost switches would satisfy ExactlyOne
+ASSUME LET CS == Cases IN
+       /\ TLCSet(41, CS)
+       /\ ndJsonSerialize(IOEnv.OUT, << >> \o [k \in 1..Len(CS) |->
+              LET st == CS[k].st
+                  finer == NestedFiner(st.args)
+              IN [id |-> k, fam |-> CS[k].fam, cfg |-> CS[k].cfg, cfgi |-> CS[k].cfgi, defs |-> CS[k].defs, st |-> st,
+                  finer |-> finer,
+                  toponly_ok |-> IF finer THEN ExactlyOne(st, Tabs[CS[k].cfgi], ExpandWith(st, Tabs[CS[k].cfgi], TopExplicit(st.args))) ELSE TRUE]])
+       /\ PrintT(<<"GEN", "Gen_DiffSwitch", Len(CS)>>)
 =============================================================================
